@@ -45,6 +45,7 @@ def detect(seed, pids, tier="quick"):
         sh(["git", "reset", "-q"], cwd="/repo")
     if r.returncode != 0:
         print("APPLY FAILED on /repo", r.stderr)
+        sh(["git", "checkout", "--", "."], cwd="/repo")     # a 3-way attempt may leave conflict markers behind
         return 2
     res = {}
     try:
